@@ -155,7 +155,7 @@ func (e *sgEngine) Generate(seed uint64, tier string, run int) (json.RawMessage,
 	var c SGCase
 	n := rk.Range(4, 40)
 	sizes := []int{0, 1, 2, 3, 5, 8, 16, 33, 64}
-	pattern := rk.Intn(3)
+	pattern := rk.Intn(4) // 3: typing (every Init extends the previous paragraph by a few runes)
 	lastLen := 0
 	lastText := ""
 	// swarm knob: 20% of the runs draw their texts from truncation aliases (see genCollisionText)
@@ -205,6 +205,21 @@ func (e *sgEngine) Generate(seed uint64, tier string, run int) (json.RawMessage,
 				op.E = 1 // refill in place with another length (the common append(buf[:0], ...) idiom)
 			}
 			lastText = string(t)
+			switch {
+			case pattern == 3 && len(c.Ops) > 0 && rg.Chance(0.85):
+				k := rg.Range(1, 3)
+				add := genClassText(rg, k)
+				if rg.Chance(0.6) {
+					add = add[:0]
+					for i := 0; i < k; i++ {
+						add = append(add, kernel.Pick(rg, []rune(" aA1.,-(\"'/:%$)5\u00b0\u2030\u0301\u200d")))
+					}
+				}
+				op = ReuseOp{K: "uinit", Text: string(add), E: 3, S: op.S}
+			case rg.Chance(0.08):
+				// segment a segment: the slice an iterator returned goes straight back into Init
+				op = ReuseOp{K: "uinit", E: 2, Iter: rg.Intn(8), S: op.S}
+			}
 			if rg.Chance(0.6) {
 				op.S = rg.Range(1, 11) // a decoy text is segmented by another object right before
 			}
